@@ -337,6 +337,17 @@ def _run_one(args):
     t0 = time.time()
     try:
         overlay = {}
+        if m.get('reformat'):
+            import ast as _ast
+            from .model import Model
+            for mi in Model().modules.values():
+                rel = os.path.relpath(mi.path, REPO) if os.path.isabs(mi.path) else mi.path
+                with open(os.path.join(REPO, rel), encoding='utf-8') as f:
+                    src = f.read()
+                txt = _ast.unparse(_ast.parse(src, type_comments=True)) + '\n'
+                if src.startswith('#!'):
+                    txt = src.split('\n', 1)[0] + '\n' + txt
+                overlay[rel] = txt
         for rel, old, new in m['edits']:
             src = overlay.get(rel)
             if src is None:
@@ -360,6 +371,9 @@ def run(prop, rids, tier, seed, base_obs=None):
     mine = [m for m in CATALOGUE if prop in m['props']]
     skipped = [m['name'] for m in mine if not applicable(m, sources)]
     mine = [m for m in mine if applicable(m, sources)]
+    if tier != 'quick':
+        # every source file re-emitted by ast.unparse: all formatting, comments and line numbers change
+        mine.append({'name': 'twin-reformat-every-file', 'kind': 'twin', 'props': [prop], 'rules': [], 'edits': [], 'expect': '', 'reformat': True})
     if tier == 'quick':
         rnd = random.Random(seed)
         faults = [m for m in mine if m['kind'] == 'fault']
